@@ -258,6 +258,9 @@ type SizeCase struct {
 	Chunked bool   `json:"chunked"`
 	Route   string `json:"route"` // proxy | provider | anthropic
 	AMax    int    `json:"anthropic_max"`
+	// Method: "" = POST; proxy and provider routes also carry bodies on PUT, PATCH, DELETE (Ollama's
+	// /api/delete) and GET
+	Method string `json:"method,omitempty"`
 }
 
 type sizeRig struct {
@@ -348,7 +351,12 @@ func runSize(c SizeCase) []ev.Violation {
 	if c.Chunked {
 		plan = []int{len(body)/2 + 1}
 	}
-	req := rawclient.Request("POST", target, [][2]string{{"Content-Type", "application/json"}, {"Connection", "close"}}, body, plan)
+	method := c.Method
+	if method == "" {
+		method = "POST"
+	}
+	rec.Class("size/method=" + method)
+	req := rawclient.Request(method, target, [][2]string{{"Content-Type", "application/json"}, {"Connection", "close"}}, body, plan)
 	resp, err := rawclient.Do(r.s.Addr, req, 20*time.Second)
 	rec.Eval(1)
 	if err != nil {
@@ -376,7 +384,7 @@ func runSize(c SizeCase) []ev.Violation {
 	}
 	rec.Class(fmt.Sprintf("size/over=%v/%s/%s", over, fr, c.Route))
 	var vs []ev.Violation
-	desc := fmt.Sprintf("engine=%s route=%s framing=%s body %d B, %s=%d -> status %d, backend received %d request(s)", c.Engine, c.Route, fr, len(body), what, limit, resp.Status, r.be.Count())
+	desc := fmt.Sprintf("engine=%s %s route=%s framing=%s body %d B, %s=%d -> status %d, backend received %d request(s)", c.Engine, method, c.Route, fr, len(body), what, limit, resp.Status, r.be.Count())
 	seen := r.be.Seen()
 	for _, s := range seen {
 		if s.BodyLen > limit {
@@ -392,7 +400,7 @@ func runSize(c SizeCase) []ev.Violation {
 	if over && c.Route == "anthropic" && c.Size > c.AMax && resp.Status != 413 && len(vs) == 0 {
 		vs = append(vs, ev.Violation{Sig: fmt.Sprintf("anthropic-oversize-status-not-413/%s/got-%d", fr, resp.Status), Detail: desc})
 	}
-	if !over && (resp.Status != 200 || len(seen) != 1 || !bytes.Equal(seen[0].Body[:min(len(seen[0].Body), 64)], body[:min(len(body), 64)]) && c.Route != "anthropic") {
+	if !over && method == "POST" && (resp.Status != 200 || len(seen) != 1 || !bytes.Equal(seen[0].Body[:min(len(seen[0].Body), 64)], body[:min(len(body), 64)]) && c.Route != "anthropic") {
 		if resp.Status != 200 || len(seen) != 1 {
 			vs = append(vs, ev.Violation{Sig: "request-within-limit-refused/" + c.Route, Detail: desc})
 		}
@@ -425,8 +433,12 @@ func genSize(t *rapid.T) SizeCase {
 	if size < 100 {
 		size = 100
 	}
-	return SizeCase{Engine: rapid.SampledFrom([]string{"sherpa", "olla"}).Draw(t, "engine"), Limit: limit, AMax: amax, Size: size,
+	c := SizeCase{Engine: rapid.SampledFrom([]string{"sherpa", "olla"}).Draw(t, "engine"), Limit: limit, AMax: amax, Size: size,
 		Chunked: rapid.Bool().Draw(t, "chunked"), Route: route}
+	if route != "anthropic" {
+		c.Method = rapid.SampledFrom([]string{"", "", "", "PUT", "PATCH", "DELETE", "GET"}).Draw(t, "method")
+	}
+	return c
 }
 
 var _ = net.Dial
@@ -434,11 +446,24 @@ var _ = net.Dial
 func TestC17(t *testing.T) {
 	defer stopSizeRigs()
 	defer stopFirstRigs()
-	rec.SetRule("rate: one stack per case with fast limits (300..1200/min, burst 1..10, optional global limit); 1..8 concurrent senders each with its own connection(s), keep-alive on/off, proxy/provider/Anthropic/mixed routes (including proxied paths that end in /internal/health), interleaved /internal/health; a quarter of the cases use a slow refill, a short cleanup_interval and senders that pause for longer than it; admitted = requests that reached the recording backend, judged against burst + rate x t + 1 over the over-estimated window [first send, last receive]; refusals must be 429. first: 2..12 requests fired at the same instant over pre-established connections from a client address the limiter has never seen (a fresh 127.a.b.c per case), limit 1/min, burst 1..3: at most burst may be admitted. size: bodies at limit-1, limit, limit+1, 5x limit with Content-Length or chunked framing against max_body_size {1 KiB, 64 KiB} and Anthropic max_message_size {4 KiB, 1 MiB}. non-trivial = >=3x the allowed volume offered over >=2 connections (rate) / chunked body above the limit (size); distinct by case")
+	rec.SetRule("rate: one stack per case with fast limits (300..1200/min, burst 1..10, optional global limit); 1..8 concurrent senders each with its own connection(s), keep-alive on/off, proxy/provider/Anthropic/mixed routes (including proxied paths that end in /internal/health), interleaved /internal/health; a quarter of the cases use a slow refill, a short cleanup_interval and senders that pause for longer than it; admitted = requests that reached the recording backend, judged against burst + rate x t + 1 over the over-estimated window [first send, last receive]; refusals must be 429. first: 2..12 requests fired at the same instant over pre-established connections from a client address the limiter has never seen (a fresh 127.a.b.c per case), limit 1/min, burst 1..3: at most burst may be admitted. minute: one slow-rate case per shard that watches a single client for more than 60 s (the limiter's accounting window) while it sends at 2.5x the refill rate. size: bodies (POST; on proxy/provider routes also PUT, PATCH, DELETE, GET) at limit-1, limit, limit+1, 5x limit with Content-Length or chunked framing against max_body_size {1 KiB, 64 KiB} and Anthropic max_message_size {4 KiB, 1 MiB}. non-trivial = >=3x the allowed volume offered over >=2 connections (rate) / chunked body above the limit (size); distinct by case")
 	rec.Assume("rate: all senders share one client IP (127.0.0.1); the admission window is over-estimated, so a slow machine only loosens the bound")
 	if ev.Replay(t, rec, "rate", runRate) || ev.Replay(t, rec, "size", runSize) || ev.Replay(t, rec, "first", runFirst) {
 		return
 	}
+	// one long case per shard runs beside the others: the same client observed across the limiter's
+	// one-minute accounting window
+	minuteDone := make(chan struct{})
+	go func() {
+		defer close(minuteDone)
+		k := rec.Shard() + 7*int(uint64(rec.Seed())%1000)
+		pm := []int{60, 30, 120}[k%3]
+		mc := RateCase{Engine: []string{"sherpa", "olla"}[k%2], PerMin: pm, Burst: []int{5, 10, 3}[(k/2)%3], Conns: 1, KeepAlive: k%4 < 2,
+			Route: "proxy", Offered: 70 * pm * 5 / 2 / 60, GapUs: 60 * 1000000 * 2 / (pm * 5)}
+		ev.Direct(rec, "rate", mc, runRate)
+		rec.Class("rate/client-watched-for-more-than-60s")
+	}()
+	defer func() { <-minuteDone }()
 	ev.Check(t, rec, "rate", rec.Pick(24, 300), genRate, runRate)
 	ev.Check(t, rec, "size", rec.Pick(200, 4000), genSize, runSize)
 	ev.Check(t, rec, "first", rec.Pick(1500, 40000), genFirst, runFirst)
